@@ -15,7 +15,8 @@ from ..calls import bind_counts, bind_call, swapped_names
 from .C12 import is_effect_on, WRITE_EFFECTS
 
 FILESET = "typhon/files/fileset.py"
-EXPECT = {"C11.bind": 4, "C11.delete": 3, "C11.move": 5, "C11.write": 7, "C11.pure": 2, "C11.handlers": 3, "C11.items": 2}
+HCOMMON = "typhon/files/handlers/common.py"
+EXPECT = {"C11.bind": 4, "C11.delete": 3, "C11.move": 5, "C11.write": 7, "C11.pure": 2, "C11.handlers": 3, "C11.items": 2, "C11.ncread": 1}
 
 
 def _method_ref(ctx, node):
@@ -432,8 +433,36 @@ def rule_ncmode(ctx):
            node=c, func=f)
 
 
+def rule_ncread(ctx):
+    """xarray.decode_cf applies scale_factor / add_offset / _FillValue itself.  netCDF4-python must therefore hand out the stored values:
+    with its automatic MASKING left on, every variable arrives as a masked array - xarray turns those into floats, and every integer equal
+    to the default fill value of its type (255 for u1, -127 for i1, ...) becomes NaN."""
+    ctx.rule("C11.ncread", "T1", "NetCDF4.read switches off netCDF4-python's automatic scaling AND masking before the variables are loaded")
+    from ..flow import Flow
+    f = ctx.func(HCOMMON, "NetCDF4.read")
+    flow = Flow(f)
+    loads = [c_ for c_ in calls_in(f.node, "_load_group")]
+    if not loads:
+        raise AnalysisError("NetCDF4.read: the call that loads the variables (_load_group) was not found")
+    offs = {"scale": False, "mask": False}
+    for c_ in calls_in(f.node):
+        nm = c_.func.attr if isinstance(c_.func, ast.Attribute) else ""
+        off = bool(c_.args) and isinstance(c_.args[0], ast.Constant) and c_.args[0].value is False
+        before = all(flow._order(enclosing_stmt(c_)) < flow._order(enclosing_stmt(l_)) for l_ in loads)
+        if off and before:
+            if nm in ("set_auto_maskandscale",):
+                offs["scale"] = offs["mask"] = True
+            elif nm == "set_auto_scale":
+                offs["scale"] = True
+            elif nm == "set_auto_mask":
+                offs["mask"] = True
+    ctx.ob("NetCDF4.read.raw_values", offs["scale"] and offs["mask"], "switched off before the variables are loaded: %s" % sorted(k_ for k_, v_ in offs.items() if v_),
+           "set_auto_maskandscale(False) (or set_auto_scale(False) and set_auto_mask(False)): integers survive a write / read cycle (uint8 255 came back as NaN, every "
+           "integer variable as float64)", node=loads[0], func=f, witness=None if offs["scale"] and offs["mask"] else {"written": "uint8 [0, 1, 254, 255]", "read back": "float64 [0, 1, 254, nan]"})
+
+
 def run(ctx):
-    for r in (rule_bind, rule_delete, rule_move, rule_write, rule_handlers, rule_items, rule_ncmode):
+    for r in (rule_bind, rule_delete, rule_move, rule_write, rule_handlers, rule_items, rule_ncmode, rule_ncread):
         ctx.attempt(r, ctx)
     from ..purity import rule_pure
     ctx.attempt(rule_pure, ctx, "C11.pure", [(FILESET, "FileSet.read"), (FILESET, "FileSet.write")],
